@@ -1,7 +1,8 @@
 """C31  Serialised and pickled objects reflect current state and round-trip."""
 import ast
 from ..loader import dotted, walk_no_nested, norm, head, calls_in
-from ..q import nodes_calling
+from ..q import nodes_calling, const_sets, value_atom
+from ..typestate import scenario_edges
 
 EXPLANATION = """
 Static clauses decided (necessary conditions of C31):
@@ -85,14 +86,19 @@ def run(ctx):
            '' if ok else 'Entity.to_dict can read attribute values of a modified live session without flushing first')
     # ---------------------------------------------------------------- PICKLE
     rd = repo.fn(CORE, 'Entity.__reduce__'); g = cg.cfg(rd)
-    build = [x for x in g.nodes if x.kind == 'stmt' and isinstance(x.ast, ast.Assign) and isinstance(x.ast.value, ast.Dict)]
-    t1 = [t for t in g.nodes if t.kind == 'test' and norm(t.ast) == '%s._status_ in del_statuses' % rd.recv]
-    t2 = [t for t in g.nodes if t.kind == 'test' and norm(t.ast) == "%s._status_ in ('created', 'modified')" % rd.recv]
-    ok = bool(build) and bool(t1) and bool(t2) and all(g.dominated(b, t1) and g.dominated(b, t2) for b in build)
-    for t in t1 + t2:
-        ts = [y for y, lab in g.succ[t.id] if lab == 'T']
-        if g.exit.id in g.reach(ts): ok = False
-    ctx.ob('C31-PICKLE.only-stored-state-is-pickled', rd, rd.node, ok, '' if ok else 'Entity.__reduce__ does not refuse deleted/created/modified objects before building the state')
+    # scenario evaluation: with obj._status_ set to each unsaved / deleted status, no path reaches a normal return
+    sets = const_sets(repo.mod(CORE)); subj = rd.recv + '._status_'
+    refused = sorted(sets.get('del_statuses', ())) + ['created', 'modified']
+    rets = [x for x in g.nodes if x.kind == 'stmt' and isinstance(x.ast, ast.Return)]
+    ok = bool(rets) and len(refused) >= 5
+    leak = []
+    for val in refused:
+        eo = scenario_edges(g, rd.node, value_atom(rd.node, subj, val, sets), resolve=False)
+        r_ = g.reach([g.entry.id], edge_ok=eo)
+        if any(x.id in r_ for x in rets): ok = False; leak.append(val)
+    eo = scenario_edges(g, rd.node, value_atom(rd.node, subj, 'loaded', sets), resolve=False)
+    if not any(x.id in g.reach([g.entry.id], edge_ok=eo) for x in rets): ok = False; leak.append('loaded object cannot be pickled')
+    ctx.ob('C31-PICKLE.only-stored-state-is-pickled', rd, rd.node, ok, '' if ok else 'Entity.__reduce__ does not refuse deleted/created/modified objects before building the state: %s' % ', '.join(leak))
     rets = [norm(s.value) for s in walk_no_nested(rd.node) if isinstance(s, ast.Return)]
     ok = rets == ['(unpickle_entity, (d,))']
     ctx.ob('C31-PICKLE.reduce-targets-unpickle_entity', rd, rd.node, ok, '' if ok else '__reduce__ returns %s' % rets)
